@@ -409,6 +409,14 @@ def loop_flow(node, passed, sink, excused=None):
                 if oc != "next":
                     out.add((oc, q))
                     continue
+                if ex == "then-exit":
+                    # an audited early exit: leaving the loop from this branch is allowed
+                    out |= {(o2, q2) for o2, q2 in ev(n.get("then"), True) if o2 not in ("break", "return", "continue")}
+                    if n.get("else") is not None:
+                        out |= ev(n["else"], q)
+                    else:
+                        out.add(("next", q))
+                    continue
                 out |= ev(n.get("then"), True if ex == "then" else q)
                 if n.get("else") is not None:
                     out |= ev(n["else"], True if ex == "else" else q)
